@@ -8,9 +8,9 @@ def run(tier, seed):
     c = common.Check('C02', tier, seed, 'symbolic execution of main (MIR): every reachable MIR assert / modelled std panic (unwrap on Err, failed try_lock, index and slice bounds, char boundaries, arithmetic traps) / step-budget exhaustion on a satisfiable path is a violation; union over all template families plus alias shapes; native replay (exit 101)')
     c.functions |= {'main and everything reachable from it in src/eval, src/builtins, src/lexer, generated parser (MIR)', 'std models with their documented panics: Result::unwrap, Option::unwrap/expect, Mutex::try_lock, Vec/slice indexing, str slicing (range and char boundary), integer overflow asserts, % and / traps'}
     asp = ('panic', 'hang')
-    fams = [('alias', alias, alias.role), ('arith', arith, None), ('seq', seq, None), ('equality', equality, None), ('heap', heap, None), ('objects', objects, None)]
+    fams = [('alias', alias, alias.role), ('arith', arith, None), ('seq', seq, None), ('equality', equality, None), ('heap', heap, None)]
     if tier == 'thorough':
-        fams += [('control', control, None), ('types', types, None), ('destructure', destructure, None), ('calls', calls, None), ('errors', errors, None), ('render', render, None), ('scopes', scopes, None)]
+        fams += [('objects', objects, None), ('control', control, None), ('types', types, None), ('destructure', destructure, None), ('calls', calls, None), ('errors', errors, None), ('render', render, None), ('scopes', scopes, None)]
     # (quick: the remaining families carry the `panic` / `hang` aspects in their own properties' checks)
     n = 0
     for name, mod, role in fams:
